@@ -397,13 +397,13 @@ func c02ClosureErr(p *Program, r *Report, f *ssa.Function, ctor string) {
 // ---- R-C02-3 ---------------------------------------------------------------------
 
 type bigAtoms struct {
-	ok         bool
-	query      map[string]bool // Has(LIT) => not BIG
-	hdr        map[string]bool // Get(LIT) != "" => not BIG
-	method     string
-	needsKey   bool // third path segment must be non-empty
-	minSegs    int64
-	unclassed  int
+	ok        bool
+	query     map[string]bool // Has(LIT) => not BIG
+	hdr       map[string]bool // Get(LIT) != "" => not BIG
+	method    string
+	needsKey  bool // third path segment must be non-empty
+	minSegs   int64
+	unclassed int
 }
 
 func c02BigAtoms(p *Program, r *Report) bigAtoms {
@@ -618,7 +618,7 @@ func c02Handler(p *Program, r *Report, h *ssa.Function, key string, big bigAtoms
 // ---- R-C02-4 ---------------------------------------------------------------------
 
 var eofTransparent = map[string][]int{
-	"io.TeeReader":           {0},
+	"io.TeeReader":              {0},
 	utilsPkg + ".NewHashReader": {0},
 }
 
